@@ -24,6 +24,9 @@ Property theorems only (helper lemmas: `Lemmas.lean`; model: `Model.lean`; refer
    * `quota_bound`, `quota_bound_any_interval`  the same for each group through `Quota.Blocked`, for
                                 every history whose number of distinct groups fits the LRU (`maxEntries`)
    * `quota_capacity_needed`    beyond the LRU capacity the bound is lost (eviction forgets the bucket)
+   * `concurrent_first_contact_bound`  all interleavings of the atomic sections (get-or-create, Allow) of any number
+                                of goroutines hitting a fresh group admit ≤ burst (rate 0);
+     `check_then_act_overadmits`  the split lookup/create variant does not
 3. `src_*`                      source-shape facts regenerated from /repo by tools/gofacts
 -/
 namespace Gate.C34.Props
@@ -151,6 +154,22 @@ example : firsts [] [(0, some [1]), (1, some [2]), (2, some [1]), (3, none)] = 2
 theorem quota_capacity_needed :
     (QCfg.mk 0 1 1 1).allowedOf [1] [] [(0, some [1]), (0, some [2]), (0, some [1]), (0, some [2]), (0, some [1])] = 3 := by
   decide
+
+/-! ### 2b. concurrent first contact (interleavings of the atomic sections of `Blocked`, rate 0) -/
+
+/-- Any number of goroutines, any interleaving of their atomic sections — get-or-create under the Quota mutex
+    (`acq`, one critical section as `src_quota_shape` pins it) and `Allow` on the bucket obtained (`alw`) —
+    lets at most `burst` events of a fresh group through: only one bucket is ever created. -/
+theorem concurrent_first_contact_bound (burst : Nat) (sched : List CAct) (h : ∀ a ∈ sched, a.atomic = true) :
+    (crun burst CState.init sched).allowed ≤ burst := by
+  have hi : CInv burst CState.init := Or.inl ⟨rfl, rfl, rfl, fun _ => rfl⟩
+  rcases cinv_run burst sched CState.init h hi with ⟨_, _, h0, _⟩ | ⟨r, _, _, hr, _⟩ <;> omega
+
+/-- The check-then-act variant (lookup and create+Add in separate critical sections) is NOT safe: two
+    goroutines that both miss each install a full bucket and both pass with `burst = 1`.  This is the
+    schedule class the harness's `qconc` probe looks for on the real code. -/
+theorem check_then_act_overadmits :
+    (crun 1 CState.init [.look 0, .look 1, .create 0, .create 1, .alw 0, .alw 1]).allowed = 2 := by decide
 
 /-! ### 3. tie to the source: facts regenerated by `tools/gofacts` -/
 
